@@ -154,7 +154,7 @@ func c15R1R2(a *A, r *Roles, ar *Arms) {
 				for _, ref := range *al.Referrers() {
 					if fa, ok := ref.(*ssa.FieldAddr); ok {
 						for _, rr := range *fa.Referrers() {
-							if st, ok := rr.(*ssa.Store); ok && resolve(st.Val) == tm && instrDominates(st, x) {
+							if st, ok := rr.(*ssa.Store); ok && resolve(st.Val) == tm && dominatesAt(st, x) {
 								holds = true
 							}
 						}
